@@ -689,6 +689,13 @@ impl Display for LinearModel {
         });
 
         let constraints = constraints.collect::<Vec<String>>().join("\n");
+        // the grammar wants at least one constraint: a model without rows is
+        // written with a row that always holds (and is dropped when read back)
+        let constraints = if self.constraints.is_empty() {
+            "    0 <= 0".to_string()
+        } else {
+            constraints
+        };
         let mut is_first = true;
         let objective = self
             .objective
